@@ -47,8 +47,7 @@ def step (op res : String) : List String :=
       let b := ws.any (fun w => (w.splitOn "B-len").length > 1)
       ["DIVERGE dom model=whole-datagram-is-read"] ++
       (if a then [s!"FAIL C14 a long datagram ending in a server identifier that names another server was answered: {res}"] else []) ++
-      (if b then [s!"FAIL C17 a long datagram ending in a request for the DNS servers was not answered with them: {res}"] else []) ++
-      [s!"FAIL C01 long datagrams are not handled as what was sent: {res}"]
+      (if b then [s!"FAIL C17 a long datagram ending in a request for the DNS servers was not answered with them: {res}"] else [])
     else ["DIVERGE dom model=serves", s!"FAIL C01 the Serve loop on long datagrams: {res}", s!"FAIL C16 the Serve loop on long datagrams: {res}"]
   | proto :: _k :: mode :: procs :: _ =>
     let tag := s!"br:serve.{proto}.{mode}.procs{if procs == "1" then "1" else "n"}"
